@@ -216,7 +216,7 @@ def run(F, rep):
     # ------------------------------------------------------------------ clauses shared with C09: hasUnlinkedUnits/linkUnits decide "linked" by the owning model of the units object
     import core
     import c09
-    c09.run(F, core.Borrowed(rep, only={'C09.P3', 'C09.P4'}))
+    c09.run(F, core.Borrowed(rep, only={'C09.P3', 'C09.P4', 'C09.Q1'}))
 
     # ------------------------------------------------------------------ W: walks over the component tree are complete
     import recursion as _recw
